@@ -186,6 +186,77 @@ pub fn sphere_vectors(tier: &str) -> Vec<(V3, &'static str)> {
     pts
 }
 
+
+/// Wedge histories. One projection object serves many points in a row; what it did for the previous point
+/// must not leak into the next one. For every face G and every 36-degree wedge of it: an alphabet of six
+/// plane points (two inside the pentagon, two beyond the edge of G in the same wedge, one inside and one
+/// beyond in the next wedge), each as forward (of its sphere point) and as inverse: 12 ops; all ordered
+/// pairs (a, b) followed by a again, on one fresh instance per wedge. Oracle per call: forward returns the
+/// plane point within 1e-11, inverse returns the sphere point within 1e-11 rad, where plane point and sphere
+/// point belong together by the cold round trip (a fresh instance per point) that `check_plane_point`
+/// judges separately.
+fn wedge_point(sector: usize, frac: f64, ang_off: f64) -> P2 {
+    let a = (36.0 * sector as f64 + ang_off) * rg::DEG;
+    let k = (a / (72.0 * rg::DEG)).round();
+    let beta = a - k * 72.0 * rg::DEG;
+    let r = frac * geo::face_inradius() / beta.cos();
+    [r * a.cos(), r * a.sin()]
+}
+pub fn wedge_history(face: usize, sector: usize, only: Option<(usize, usize)>) -> (u64, Vec<Viol>) {
+    use a5::coordinate_systems::Face;
+    use a5::projections::dodecahedron::DodecahedronProjection;
+    let nxt = (sector + 1) % 10;
+    let qs: [P2; 6] = [wedge_point(sector, 0.4, 13.0), wedge_point(sector, 0.97, 22.0), wedge_point(sector, 1.03, 22.0), wedge_point(sector, 1.3, 9.0), wedge_point(nxt, 0.9, 5.0), wedge_point(nxt, 1.1, 5.0)];
+    // sphere partners by the cold inverse (a fresh instance per point)
+    let mut vs: Vec<V3> = Vec::new();
+    for q in qs.iter() {
+        let r = subj::guard(|| {
+            let mut inst = DodecahedronProjection::new()?;
+            inst.inverse(Face::new(q[0], q[1]), face as u8).map(subj::sph_to_vec)
+        });
+        match r {
+            Ok(v) => vs.push(v),
+            Err(e) => return (0, vec![viol("C15/inverse-error", e, json!({"kind": "plane_point", "q": [q[0], q[1]], "face": face}))]),
+        }
+    }
+    let mut inst = match subj::guard(DodecahedronProjection::new) {
+        Ok(i) => i,
+        Err(e) => return (0, vec![viol("C15/forward-error", e, json!({"kind": "wedge_history", "face": face, "sector": sector}))]),
+    };
+    let name = |op: usize| format!("{}(point {}: {} the pentagon, wedge {})", if op % 2 == 0 { "forward" } else { "inverse" }, op / 2, if [0, 1, 4].contains(&(op / 2)) { "inside" } else { "beyond the edge of" }, if op / 2 >= 4 { nxt } else { sector });
+    let mut run = |op: usize| -> Result<f64, String> {
+        let (q, v) = (qs[op / 2], vs[op / 2]);
+        if op % 2 == 0 {
+            subj::guard(|| inst.forward(subj::sph(v), face as u8).map(|f| ((f.x() - q[0]).powi(2) + (f.y() - q[1]).powi(2)).sqrt()))
+        } else {
+            subj::guard(|| inst.inverse(Face::new(q[0], q[1]), face as u8).map(|s| rg::ang(subj::sph_to_vec(s), v)))
+        }
+    };
+    let mut n = 0u64;
+    let pairs: Vec<(usize, usize)> = match only {
+        Some(p) => vec![p],
+        None => (0..12).flat_map(|a| (0..12).map(move |b| (a, b))).collect(),
+    };
+    for (a, b) in pairs {
+        for (i, op) in [a, b, a].into_iter().enumerate() {
+            n += 1;
+            let bad = match run(op) {
+                Ok(e) if e <= 1e-11 => None,
+                Ok(e) => Some(format!("off by {:.3e}", e)),
+                Err(e) => Some(e),
+            };
+            if let Some(why) = bad {
+                return (n, vec![viol(
+                    "C15/roundtrip-after-other-point",
+                    format!("face {}: call #{} of [{}, {}, {}] on one projection object is {} (plane point and sphere point agree within 1e-12 when each is converted by a fresh object)", face, i + 1, name(a), name(b), name(a), why),
+                    json!({"kind": "wedge_history", "face": face, "sector": sector, "a": a, "b": b}),
+                )]);
+            }
+        }
+    }
+    (n, vec![])
+}
+
 pub fn run_c15(tier: &str) -> Report {
     let mut rep = Report::new("exploration");
     // a legitimate, unrelated use of the public projection with a caller-supplied triangle comes first
@@ -206,6 +277,17 @@ pub fn run_c15(tier: &str) -> Report {
         plane_evals += plane.len() as u64;
         rep.sink.extend(vs);
     }
+    // wedge histories (see `wedge_history`): every face x every wedge, all ordered pairs of 12 ops with echo
+    let wedge_calls;
+    {
+        let jobs: Vec<(usize, usize)> = (0..12).flat_map(|f| (0..10).map(move |s| (f, s))).collect();
+        let res: Vec<(u64, Vec<Viol>)> = jobs.par_iter().map(|&(f, s)| wedge_history(f, s, None)).collect();
+        wedge_calls = res.iter().map(|r| r.0).sum::<u64>();
+        for (_, v) in res {
+            rep.sink.extend(v);
+        }
+        rep.set("wedge_histories", json!({"faces": 12, "wedges_per_face": 10, "ops_per_wedge": 12, "histories_per_wedge": 144, "calls": wedge_calls}));
+    }
     // forward second-difference sweeps (see run_forward_sweep)
     let hs = if tier == "quick" { 1e-7 } else { 2e-8 };
     let mut fsteps = 0u64;
@@ -220,7 +302,7 @@ pub fn run_c15(tier: &str) -> Report {
     rep.set("forward_sweeps", json!({"curves": sws.iter().filter(|s| !s.arc).count(), "step_rad": hs, "steps": fsteps, "worst_second_difference": fworst, "tolerance": SWEEP_TOL}));
     let hard = pts.iter().filter(|(_, t)| *t != "uniform").count() as u64 + plane.iter().filter(|(_, t)| *t != "interior").count() as u64 * 12;
     let w = worst.lock().unwrap();
-    rep.set("evaluations", json!(2 * pts.len() as u64 + plane_evals + fsteps));
+    rep.set("evaluations", json!(2 * pts.len() as u64 + plane_evals + fsteps + wedge_calls));
     rep.set("distinct_nontrivial", json!(hard));
     rep.set("rule", json!("sphere lattice (Fibonacci + 62 frame vertices with offsets 1e-15..1e-3 + 30 face edges + 120 sector seams + polar caps + pole rings) projected relative to the nearest and second-nearest face of an independent regular-dodecahedron frame; planar polar lattice (10 sectors x 9 angles x 18 radii) on each of the 12 faces; plus forward second-difference sweeps (great-circle arcs inside single triangles in equal steps, consecutive projected step lengths equal within 1e-12, key forward_sweeps); distinct_nontrivial = points aligned with a case split of the code (frame vertex/edge/seam, pole ring, near-centre, seam rays)"));
     rep.set("exhaustive", json!(true));
@@ -764,6 +846,10 @@ pub fn run_c16(tier: &str) -> Report {
 }
 
 pub fn replay_c15(case: &Value) -> Vec<Viol> {
+    if case["kind"] == "wedge_history" {
+        let g = |k: &str| case[k].as_u64().unwrap_or(0) as usize;
+        return wedge_history(g("face") % 12, g("sector") % 10, Some((g("a") % 12, g("b") % 12))).1;
+    }
     if case["kind"] == "forward_sweep" {
         let f = |k: &str| {
             let a = case[k].as_array().unwrap();
